@@ -48,6 +48,8 @@ typedef enum
 typedef void (* DBusPendingFdsChangeFunction) (void *data);
 
 DBUS_PRIVATE_EXPORT
+dbus_uint32_t     _dbus_connection_get_next_client_serial       (DBusConnection     *connection);
+DBUS_PRIVATE_EXPORT
 void              _dbus_connection_lock                        (DBusConnection     *connection);
 DBUS_PRIVATE_EXPORT
 void              _dbus_connection_unlock                      (DBusConnection     *connection);
